@@ -16,10 +16,14 @@ from harness.drivers import paired_driver as D
 
 
 def num_py(n):
+    if n[0] == "t":
+        return tuple(n[1])
     return n[1] if n[0] == "i" else float.fromhex(n[1])
 
 
 def num_js(x):
+    if isinstance(x, tuple) and all(isinstance(v, int) and not isinstance(v, bool) for v in x):
+        return ["t", [int(v) for v in x]]
     if isinstance(x, bool):
         return ["?", repr(x)]
     if isinstance(x, int):
@@ -60,6 +64,65 @@ class _Base:
 
     def describe(self):
         return {self.name: {"source": "fake", "dtype": "number", "shape": []}}
+
+
+class Holder:
+    """An ordinary parent device (stage.x, stage.y are its children): only .name / .parent matter."""
+
+    def __init__(self, idx):
+        self.idx = idx
+        self.name = "h%d" % idx
+        self.parent = None
+
+    def __repr__(self):
+        return "Holder(%d)" % self.idx
+
+
+class Pseudo(Holder):
+    """A fake pseudo-positioner: merge_axis recognises it by the attribute RealPosition; its pseudo axes are its
+    children; its position is the tuple of their positions."""
+    RealPosition = tuple
+
+    def __init__(self, idx):
+        super().__init__(idx)
+        self.pseudo_positioners = []
+        self.real_positioners = []
+
+    @property
+    def position(self):
+        return tuple(c._pos for c in self.pseudo_positioners)
+
+    def set(self, v):
+        for c, x in zip(self.pseudo_positioners, v):
+            c._pos = x
+        return D.FakeStatus(50)
+
+
+def add_holders(devs, case):
+    """case["holders"] = [{"id": k, "type": "ordinary"|"pseudo", "children": [...]}]; ids follow the motors'."""
+    out = list(devs)
+    for h in case.get("holders", []):
+        obj = Pseudo(h["id"]) if h["type"] == "pseudo" else Holder(h["id"])
+        for c in h["children"]:
+            devs[c].parent = obj
+        if h["type"] == "pseudo":
+            obj.pseudo_positioners = [devs[c] for c in h["children"]]
+        assert h["id"] == len(out)
+        out.append(obj)
+    return out
+
+
+def normalise(case, devs):
+    """Independent restatement of _normalize_devices for these fakes: (eligible ids or None, coupled parent ids)."""
+    if devs is None:
+        return None, []
+    hs = [h for h in case.get("holders", []) if h["type"] == "pseudo"]
+    coupled = [h["id"] for h in hs if h["id"] in devs or any(c in devs for c in h["children"])]
+    elig = set(devs) | set(coupled)
+    for h in hs:
+        if h["id"] in coupled:
+            elig |= set(h["children"])
+    return sorted(elig), coupled
 
 
 class LocMotor(_Base):
@@ -111,7 +174,7 @@ class Answer(dict):
 class RCtx:
     def __init__(self, case):
         self.pos = [num_py(p) for p in case["pos"]]
-        self.devs = [KINDS[k](i, num_py(case["init"][i])) for i, k in enumerate(case["kinds"])]
+        self.devs = add_holders([KINDS[k](i, num_py(case["init"][i])) for i, k in enumerate(case["kinds"])], case)
         self.views = [list(v) for v in case["msgs"]]
         self.msgs = [self.msg_of(v) for v in self.views]
         self.msg_id = {id(m): i for i, m in enumerate(self.msgs)}
@@ -157,7 +220,7 @@ class RCtx:
         if not isinstance(m, Msg):
             return ["bad", "not a Msg: %r" % (m,)]
         c, o, a, k = m.command, m.obj, m.args, dict(m.kwargs)
-        dev = o.idx if isinstance(o, _Base) else None
+        dev = o.idx if isinstance(o, (_Base, Holder)) else None
         if c == "set" and dev is not None and len(a) == 1 and set(k) <= {"group"}:
             n = num_js(a[0])
             if n[0] == "?":
@@ -296,7 +359,12 @@ def inject_scripts(case, build, base, deviations, maxlen, pairs=0, rng=None):
 
 # ------------------------------------------------------------------------------ Coq printing
 
+TUPLES = [False]          # cases with tuple-valued positions print every number in the model's type tv
+
+
 def c_num(n):
+    if TUPLES[0]:
+        return "(TS %s)" % G.cz(n[1]) if n[0] == "i" else "(TT [%s])" % "; ".join(G.cz(v) for v in n[1])
     if n[0] == "i":
         return G.cz(n[1])
     h = n[1]
